@@ -17,6 +17,7 @@ use std::sync::{Arc, Mutex};
 use pasfmt::{make_formatter, FormattingConfig};
 use pasfmt_core::prelude::*;
 
+mod gen_types;
 mod units;
 
 pub fn hex(b: &[u8]) -> String {
